@@ -164,10 +164,12 @@ def load_cases():
     cases = []
     for be, Base in (('py', yaml.SafeLoader), ('c', yaml.CSafeLoader)):
         for dn, doc in LOAD_DOCS:
-            for api in ('load_all', 'compose_all', 'parse', 'scan', 'load'):
-                if api == 'load' and dn == 'multidoc':
+            for api in ('load_all', 'compose_all', 'parse', 'scan', 'load', 'compose'):
+                if api in ('load', 'compose') and dn == 'multidoc':
                     continue
                 if api in ('parse', 'scan', 'compose_all') and dn not in ('custom', 'multidoc', 'long'):
+                    continue
+                if api == 'compose' and dn not in ('plain', 'custom', 'long'):
                     continue
                 for binary, chunk in ((False, 7), (True, 1), (False, 4096)):
                     if chunk == 1 and dn == 'long':
@@ -225,6 +227,8 @@ class Runner:
             try:
                 if api == 'load':
                     items.append(_canon(yaml.load(st, Loader=L)))
+                elif api == 'compose':
+                    items.append(repr(c11.node_canon([yaml.compose(st, Loader=L)])))
                 else:
                     fn = {'load_all': yaml.load_all, 'compose_all': yaml.compose_all, 'parse': yaml.parse, 'scan': yaml.scan}[api]
                     for x in fn(st, Loader=L):
